@@ -84,8 +84,16 @@ func (c *Float) adaptiveEncoding(in []byte, out []byte) ([]byte, error) {
 			return
 		}
 
-		out, err = GorillaEncoding(in, out)
-		out = append(out[:1], out...)
+		var enc []byte
+		enc, err = GorillaEncoding(in, out)
+		if err != nil {
+			// the gorilla encoder rejects blocks it cannot terminate safely
+			// (e.g. +Inf and -Inf in one block); such blocks are stored with snappy
+			out = append(out[:0], floatCompressedSnappy<<4)
+			out, err = SnappyEncoding(in, out)
+			return
+		}
+		out = append(enc[:1], enc...)
 		out[0] = floatCompressedGorilla << 4
 	}()
 
